@@ -219,6 +219,11 @@ func sqlOf(o Op) string {
 		return "SELECT n FROM `" + o.F + ".csv`"
 	case "update":
 		return "UPDATE `" + o.F + ".csv` SET n = n + 1"
+	case "fu":
+		return "SELECT n FROM `" + o.F + ".csv` FOR UPDATE"
+	case "fu2":
+		// a set operation FOR UPDATE: every table of both operands is taken for update
+		return "SELECT n FROM `f1.csv` UNION ALL SELECT n FROM `f2.csv` FOR UPDATE"
 	case "create":
 		return "CREATE TABLE `" + o.F + ".csv` (n)"
 	case "commit":
@@ -267,6 +272,9 @@ func (s *Sched) runProc(p *proc, started chan struct{}) {
 		}()
 		for _, o := range p.prog {
 			p.curOp = o.Op
+			if o.Op == "fu" || o.Op == "fu2" {
+				p.curOp = "update" // SELECT .. FOR UPDATE takes its tables like a data-changing statement
+			}
 			r := pr.Exec(sqlOf(o))
 			if r.Err != "" {
 				p.outcome = classify(r)
